@@ -683,12 +683,23 @@ pub fn build_state(s: &Snap) -> PushState {
     for (h, b) in &s.out {
         t.output_stack.push(PushMessage::new(IntVector::new(h.clone()), BoolVector::new(b.clone())));
     }
+    // one label -> id map for the whole graph stack: graphs that use the same node labels share
+    // the real node (as snapshots taken with GRAPH.DUP do). A node is created in a scratch graph
+    // and cloned into every graph that names it.
+    let mut idmap: BTreeMap<usize, pushr::push::graph::Node> = BTreeMap::new();
     for sg in s.g.iter().rev() {
         let mut g = Graph::new();
-        let mut idmap = BTreeMap::new();
         for (id, st) in &sg.nodes {
-            idmap.insert(*id, g.add_node(*st));
+            let node = idmap.entry(*id).or_insert_with(|| {
+                let mut scratch = Graph::new();
+                let nid = scratch.add_node(0);
+                scratch.nodes.remove(&nid).unwrap()
+            });
+            let mut n = node.clone();
+            n.set_state(*st);
+            g.nodes.insert(n.get_id(), n);
         }
+        let idmap: BTreeMap<usize, usize> = idmap.iter().map(|(k, v)| (*k, v.get_id())).collect();
         for (d, o, w) in &sg.edges {
             if let (Some(dd), Some(oo)) = (idmap.get(d), idmap.get(o)) {
                 g.add_edge(*oo, *dd, fl(*w));
